@@ -58,6 +58,11 @@ fn dispatch(prop: &str, tier: &str, seed: u64, rest: &[String]) -> i32 {
             vh::c09::run(&mut rep, tier);
             rep.finish()
         }
+        "C07" => {
+            let mut rep = Report::new("C07", ev_tier, seed);
+            vh::c07::run(&mut rep, tier);
+            rep.finish()
+        }
         "C20" => {
             let mut rep = Report::new("C20", ev_tier, seed);
             vh::c20::run(&mut rep, tier);
